@@ -35,6 +35,35 @@ impl IpNet {
         ensures r == host_net(ip),
     { unimplemented!() }
 }
+/// ipnet's `Contains<T>`: membership of an address, inclusion of a network
+pub trait Contains<T> { fn contains(&self, other: T) -> bool; }
+impl IpNet {
+    /// the addresses of the block
+    pub uninterp spec fn has(&self, ip: IpAddr) -> bool;
+    pub uninterp spec fn base(&self) -> IpAddr;
+    /// ipnet: the network (base) address of the block -- ONE address, not the block
+    #[verifier::external_body] pub fn network(&self) -> (r: IpAddr) ensures r == self.base() { unimplemented!() }
+}
+impl Contains<&IpAddr> for IpNet {
+    #[verifier::external_body] fn contains(&self, other: &IpAddr) -> (r: bool) ensures r == self.has(*other) { unimplemented!() }
+}
+impl Contains<&IpNet> for IpNet {
+    /// true iff every address of `other` is in `self`
+    #[verifier::external_body]
+    fn contains(&self, other: &IpNet) -> (r: bool) ensures r == (forall|ip: IpAddr| other.has(ip) ==> #[trigger] self.has(ip)) { unimplemented!() }
+}
+/// what an allowlist admits (the meaning of the list; the endpoint's decision is C18's serve template)
+pub open spec fn admits(list: Seq<IpNet>, ip: IpAddr) -> bool { exists|i: int| 0 <= i < list.len() && (#[trigger] list[i]).has(ip) }
+pub proof fn lemma_admits_push(list: Seq<IpNet>, n: IpNet)
+    ensures forall|ip: IpAddr| #[trigger] admits(list.push(n), ip) <==> (admits(list, ip) || n.has(ip)),
+{
+    assert forall|ip: IpAddr| #[trigger] admits(list.push(n), ip) <==> (admits(list, ip) || n.has(ip)) by {
+        let l2 = list.push(n);
+        if admits(list, ip) { let i = choose|i: int| 0 <= i < list.len() && (#[trigger] list[i]).has(ip); assert(l2[i] == list[i]); }
+        if n.has(ip) { assert(l2[list.len() as int] == n); }
+        if admits(l2, ip) { let i = choose|i: int| 0 <= i < l2.len() && (#[trigger] l2[i]).has(ip); if i < list.len() { assert(list[i] == l2[i]); } }
+    }
+}
 impl IpAddr {
     #[verifier::external_body]
     pub fn from_str(s: &str) -> (r: Result<IpAddr, AddrParseError>)
@@ -119,13 +148,23 @@ impl PrometheusBuilder {
     ensures
         // every entry written in the documented syntax -- a plain IP address or CIDR notation -- is accepted and adds
         // exactly the network it denotes, after the entries already present
+        // (stated over what the list ADMITS, so that skipping an entry that is already covered would be fine, dropping one that is
+        // not would not) -- and the allowlist is switched on
         (is_ip_text(text_of(&address)) || is_cidr_text(text_of(&address))) ==>
-            r is Ok && r->Ok_0.allowed() == self.allowed().push(denoted_net(text_of(&address))),
+            r is Ok && r->Ok_0.allowed_addresses is Some
+            && (forall|ip: IpAddr| #[trigger] admits(r->Ok_0.allowed(), ip) <==> (admits(self.allowed(), ip) || denoted_net(text_of(&address)).has(ip))),
         // anything else is rejected with the documented error
         !(is_ip_text(text_of(&address)) || is_cidr_text(text_of(&address))) ==>
             r is Err && r->Err_0 is InvalidAllowlistAddress,
 //@BODYSTART
         let mut this = self;
+        let ghost list0 = self.allowed();
+        let ghost t0 = text_of(&address);
+//@BEFORE 1 Ok(this)
+        proof {
+            // whatever the body did to the list, if it appended the denoted network the clause follows
+            lemma_admits_push(list0, denoted_net(t0));
+        }
 //@END
 }
 
